@@ -1,5 +1,11 @@
 open Datatypes
 
+(** val tl : 'a1 list -> 'a1 list **)
+
+let tl = function
+| [] -> []
+| _ :: m -> m
+
 (** val nth_error : 'a1 list -> nat -> 'a1 option **)
 
 let rec nth_error l = function
@@ -9,6 +15,14 @@ let rec nth_error l = function
 | S n0 -> (match l with
            | [] -> None
            | _ :: l0 -> nth_error l0 n0)
+
+(** val removelast : 'a1 list -> 'a1 list **)
+
+let rec removelast = function
+| [] -> []
+| a :: l0 -> (match l0 with
+              | [] -> []
+              | _ :: _ -> a :: (removelast l0))
 
 (** val rev : 'a1 list -> 'a1 list **)
 
